@@ -32,6 +32,9 @@ fn run_history(a: &Args, tag: &'static str, idx: u64, acc: &mut Acc) {
     let phys = build(&Cfg::Phys);
     let mut domain = Domain::typed();
     domain.read_scripts = true;
+    // write sessions with seeks, in-place overwrites and intermediate flushes (append sessions stay seek-free:
+    // O_APPEND on the physical side differs by design)
+    domain.rich_scripts = true;
     domain.big_content_permille = 40;
     let read_buf = *rng.pick(&[1usize, 2, 7, 4096, 8192, 8193]);
     let probe = universe.paths.clone();
